@@ -26,7 +26,7 @@ WORKERS = {"quick": 4, "thorough": 16}
 WTESTS = {"groups": ['parse'], "tests": ['tests/dec', 'tests/decay/test_viewer.py']}
 REQUIRED = {**{f"char:{c}": 10 for c in L.ALPHABET_EXTRA}, **{f"bf-literal:{f}": 3 for f in ["1", "1.", ".25", "-0.8", "2E-3", "20.e-2", "+0.125"]},
             **{f"param-literal:{f}": 3 for f in ["1", "1.", ".5", "-0.8", "+3", "20.e12", "2E-4"]},
-            "word-param-that-python-float-would-read": 10, "line-with-model-alias+photos": 5, "line-with-model-alias": 10, "label-continuing-a-model-name": 10, "returned-values-edited-then-asked-again": 20, "models-all-published": 1, "empty-block": 10, "repeated-mother-different-body": 10, "repeated-mother-identical-body": 10,
+            "word-param-that-python-float-would-read": 10, "line-with-model-alias+photos": 5, "line-with-model-alias": 10, "label-continuing-a-model-name": 10, "file-constructor-two-files-first-without-final-newline": 10, "returned-values-edited-then-asked-again": 20, "models-all-published": 1, "empty-block": 10, "repeated-mother-different-body": 10, "repeated-mother-identical-body": 10,
             "tables>=4": 10, "tables>=8": 3, "line-without-daughters": 10, "photos-mixed-in-one-table": 10, "lines>=8": 3, "daughters>=5": 10,
             "defined-param": 10, "negated-defined-param": 5, "word-param": 10, "public-api-observation": 30, "corpus-file": 20, "second-parse-same-instance": 10, "file-constructor-same-path-rewritten": 10}
 ASSUMPTIONS = ["texts are in L_dec (DESIGN 2.1): labels are not numeric prefixes, reserved words or model-name + non-word suffix",
@@ -72,6 +72,10 @@ def gen_file(ctx):
                         ln["model"], ln["params"] = al["name"], []
     if r.random() < 0.3:
         misc.append({"k": "CopyDecay", "a": "CopyOf" + g.label(odd=False), "b": r.choice(blocks)["m"]})
+    if r.random() < 0.2:
+        # CDecay statements (also one written twice) for mothers that have their own Decay block: the block is the table, once
+        tgt = r.choice(blocks)["m"]
+        misc += [{"k": "CDecay", "name": tgt}] * r.choice([1, 2])
     late_defs = [g.misc("Define") for _ in range(r.choice([0, 0, 1]))]
     stmts = decgen.interleave(r, stmts + late_defs, blocks, misc)
     if r.random() < 0.2:
@@ -211,7 +215,23 @@ def check_text(ctx, text, exp, wit, workload, user_models=(), files=None, nontri
         with open(path, "w", encoding="utf-8", newline="") as fh:
             fh.write(ftext)
         wit = {**wit, "file_text": ftext}
-        ok3, res3 = ctx.guard("parse-from-file", wit, snapshot.make_parser, None, [path], user_models)
+        paths = [path]
+        bounds = layout.top_level_boundaries(layout.segments(ftext, L.published_models(), user_models))
+        if bounds and ctx.rng.random() < 0.4:
+            # ... split over two files at a statement boundary, the first one ending in a comment line without a final newline
+            ctx.hit("file-constructor-two-files-first-without-final-newline")
+            its = layout.segments(ftext, L.published_models(), user_models)
+            cut = ctx.rng.choice(bounds)
+            first, second = layout.render(its[: cut + 1]), layout.render(its[cut + 1:])
+            first = first.rstrip("\r\n") + ctx.rng.choice(["", "\n# end of the first part", "\n#"])
+            path2 = os.path.join(d, "case_part2.dec")
+            with open(path, "w", encoding="utf-8", newline="") as fh:
+                fh.write(first)
+            with open(path2, "w", encoding="utf-8", newline="") as fh:
+                fh.write(second)
+            paths = [path, path2]
+            wit = {**wit, "file_text": [first, second]}
+        ok3, res3 = ctx.guard("parse-from-file", wit, snapshot.make_parser, None, paths, user_models)
         if ok3:
             for mech, msg in snapshot.compare_tables(res3[0], exp):
                 ctx.violate("file-constructor:" + mech, msg, wit)
